@@ -98,3 +98,5 @@ V('C18', 'neg-pg-needs-quoting-reordered', PC, 'edb.pgsql.common.needs_quoting',
         and string.replace('_', 'a').isalnum()''', '''        string
         and string.replace('_', 'a').isalnum()
         and not string[:1].isdigit()''', None)
+V('C18', 'ident-to-str-partition', 'edb/edgeql/codegen.py', 'edb.edgeql.codegen.ident_to_str',
+  "        for part in ident.split('::')\n", "        for part in ident.rsplit('::', 1)\n", 'C18.R4', 'ident_to_str:every-component')
